@@ -2,6 +2,7 @@
 import numpy as np
 from vlib import gen, dense as D
 from vlib.run import corr, do, impl
+from vlib import impl_np as NP
 
 RULE = ('pairs (a,b) of Pauli operators with all four phases: exhaustive for N=1,2 (and N=3 in thorough), random N<=8; '
         'chains of successive products; batch products; both backends. A case is non-trivial when both operands are '
@@ -124,7 +125,50 @@ def c_op_history(ctx, args):
     return history.operator_history(ctx, kind, n, seed, steps, be)
 
 
-CHECKS = {'op_history': c_op_history, 'forms': c_forms, 'pmul_corr': c_pmul_corr, 'pmul_dense': c_pmul_dense, 'chain_corr': c_chain_corr, 'chain_dense': c_chain_dense,
+def c_augassign(ctx, args):
+    """the augmented forms  x @= b, x += b, x -= b, x *= c, x /= c  give what  x @ b, x + b, x - b, c * x, x / c  give (whether or not the class defines the in-place
+    method), for every pairing of Pauli / monomial / polynomial operands, and leave the right operand alone"""
+    import operator
+    a, b, fa, fb, opn = args
+    n = len(a[0]) // 2
+
+    def mk(x, form):
+        o = NP.P(x)
+        if form == 'mono':
+            return o.as_monomial().set_c(1.5 - 0.5j)
+        if form == 'poly':
+            return (o.as_polynomial() + NP.P([[0] * (2 * n), 2])) if n else o.as_polynomial()
+        return o
+
+    def canon(r):
+        r = r.as_polynomial() if hasattr(r, 'as_polynomial') else r
+        r = r.reduce() if hasattr(r, 'reduce') else r
+        return sorted(([int(v) for v in g], round((complex(c) * 1j ** int(p)).real, 9), round((complex(c) * 1j ** int(p)).imag, 9)) for g, p, c in zip(r.gs, r.ps, r.cs))
+    c = 2 - 1j
+    try:
+        if opn in ('matmul', 'add', 'sub'):
+            f = {'matmul': operator.matmul, 'add': operator.add, 'sub': operator.sub}[opn]
+            fi = {'matmul': operator.imatmul, 'add': operator.iadd, 'sub': operator.isub}[opn]
+            want = canon(f(mk(a, fa), mk(b, fb)))
+            x, y = mk(a, fa), mk(b, fb)
+            y0 = canon(y)
+            x = fi(x, y)
+            got = canon(x)
+            if canon(y) != y0:
+                return {'kind': 'oracle', 'where': 'np:%s= changed its right operand' % opn, 'observed': canon(y), 'expected': y0, 'tags': ['augassign', opn]}
+        else:
+            want = canon(c * mk(a, fa)) if opn == 'mul' else canon(mk(a, fa) / c)
+            x = mk(a, fa)
+            x = operator.imul(x, c) if opn == 'mul' else operator.itruediv(x, c)
+            got = canon(x)
+    except (TypeError, NotImplementedError):
+        return None                  # the binary form itself is not offered for this pairing
+    if got != want:
+        return {'kind': 'oracle', 'where': 'np:the augmented form of %s on %s, %s differs from the binary form' % (opn, fa, fb), 'observed': got, 'expected': want, 'tags': ['augassign', opn]}
+    return None
+
+
+CHECKS = {'augassign': c_augassign, 'op_history': c_op_history, 'forms': c_forms, 'pmul_corr': c_pmul_corr, 'pmul_dense': c_pmul_dense, 'chain_corr': c_chain_corr, 'chain_dense': c_chain_dense,
           'batch_corr': c_batch_corr, 'batch_dense': c_batch_dense, 'square': c_square}
 
 
@@ -210,3 +254,10 @@ def run(ctx):
     for it in range(int(60 * B)):
         kinds, bes = ['pauli', 'mono', 'poly'], ['np', 'np', 'torch']
         do(ctx, 'op_history', [kinds[it % len(kinds)], rng.randint(1, 3), rng.randrange(10 ** 6), rng.randint(4, 12), bes[(it // len(kinds)) % len(bes)]], nontrivial=('oph', it))
+    # augmented assignment: x @= b etc. (all one-qubit pairs with phases for Pauli @= Pauli; sampled pairings otherwise)
+    for a in gen.all_paulis(1):
+        for b in gen.all_paulis(1):
+            do(ctx, 'augassign', [a, b, 'pauli', 'pauli', 'matmul'], nontrivial=('ia', str(a), str(b)))
+    for it in range(int(120 * B)):
+        n = rng.randint(1, 4)
+        do(ctx, 'augassign', [gen.rpauli(rng, n), gen.rpauli(rng, n), rng.choice(['pauli', 'mono', 'poly']), rng.choice(['pauli', 'mono', 'poly']), rng.choice(['matmul', 'matmul', 'add', 'sub', 'mul', 'div'])], nontrivial=('iar', it))
